@@ -13,7 +13,8 @@ THEOREMS = [_T + t for t in (
     "cell_ref_exact", "range_ends_not_swapped", "stored_rect_decoded", "row_span_exact", "col_span_exact",
     "prefix_printed", "prefix_unambiguous", "prefix_total", "a1_text_never_quoted", "empty_label_never_printed",
     "name_scope_counts", "label_scope_sound", "span_scope_sound", "numeric_fallback_exact", "plain_qualification_sound",
-    "prefix_minimal", "prefix_minimal_partial", "cache_entry_facts",
+    "prefix_minimal", "prefix_minimal_partial", "cache_entry_facts", "name_kept_iff_spec_name",
+    "printed_text_resolves_partial", "cell_text_resolves_partial",
     "pinned_empty_label_printed", "pinned_span_with_unnamed_end_raises", "pinned_row_column_same_text")]
 PARTIAL = {
     _T + "prefix_minimal_partial":
@@ -26,6 +27,18 @@ PARTIAL = {
         "denote the same target, i.e. the exception is exact. Not a defect of identification (label_scope_sound covers "
         "the region); it is the only place where 'just enough' is not met. For A1/numeric references prefix_minimal is "
         "full.",
+    _T + "printed_text_resolves_partial":
+        "full statement: the TEXT printed for any stored whole-row/column reference or span, read by the spec's text "
+        "reader resolveText, denotes exactly the stored table, rows/columns and $ marks. Proved under the hygiene "
+        "hypothesis PlainNames doc := (∀ sheet, NoCQ name) ∧ (∀ table, NoCQ name) ∧ (every header NAME x is a PlainLabel: "
+        "NoCQ x and its first character is not '$', 'A'..'Z' or a digit), NoCQ s := no ':' and no apostrophe in s. "
+        "Excluded region = ¬PlainNames doc, where the printed text is ambiguous as a string regardless of scoping "
+        "(label '$x' vs absolute 'x', label 'B' vs column B, apostrophes = known finding C18 apostrophe-in-name); the "
+        "structured theorems label_scope_sound / span_scope_sound hold there too.",
+    _T + "cell_text_resolves_partial":
+        "same text-level statement for cell and rectangle references (texts of cell_ref_exact / "
+        "range_ends_not_swapped read by resolveText); same hygiene hypothesis PlainNames doc (only its sheet/table-name "
+        "part is used).",
 }
 RULE = ("a case is one (document configuration, host cell, reference node) triple rendered by the real node_to_ref/str; "
         "distinct non-trivial = distinct (configuration, printed text, target) triples whose target is another table or "
@@ -46,7 +59,11 @@ MANIFEST = {
             "and the text is a label whose qualification + name resolveLabel maps to exactly (target, axis, index) — "
             "DOCUMENT / SHEET / TABLE / NONE scopes and every prefix branch of expand_ref — or the numeric fallback "
             "whose qualification denotes the target), span_scope_sound (same for a:b spans), cache_entry_facts (what a "
-            "name-cache entry means in the spec's terms), prefix_minimal (A1/numeric: one level of qualification less "
+            "name-cache entry means in the spec's terms), name_kept_iff_spec_name (the model keeps a name exactly where "
+            "the spec sees one, so the numeric fallback is printed iff there is no usable name), "
+            "printed_text_resolves_partial / cell_text_resolves_partial (the printed TEXT, read by the spec's text "
+            "reader resolveText, gives back the stored table, coordinates and $ marks; hygiene hypothesis PlainNames), "
+            "prefix_minimal (A1/numeric: one level of qualification less "
             "no longer denotes the target), prefix_minimal_partial (labels: same, except the deliberately "
             "over-qualified absolute sheet-scope case, characterised exactly). Correspondence: documents built with "
             "the real API (random 1..4 sheets x 1..4 tables with name/label pools + directed 3..4-sheet naming "
